@@ -295,6 +295,17 @@ namespace bluetoe {
                 this->state( details::sm_pairing_state::lesc_pairing_random_exchanged );
 
                 std::copy( remote_nonce, remote_nonce + 16, remote_nonce_.begin() );
+                dhkey_check_verified_ = false;
+            }
+
+            void dhkey_check_verified( bool verified )
+            {
+                dhkey_check_verified_ = verified;
+            }
+
+            bool dhkey_check_verified() const
+            {
+                return dhkey_check_verified_;
             }
 
             void lesc_pairing_completed( const details::uint128_t& long_term_key )
@@ -361,6 +372,7 @@ namespace bluetoe {
             uint128_t                           remote_nonce_;
             io_capabilities_t                   remote_io_caps_;
             uint128_t                           long_term_key_;
+            bool                                dhkey_check_verified_;
         };
 
         template < class OtherConnectionData >
@@ -507,6 +519,17 @@ namespace bluetoe {
                 this->state( details::sm_pairing_state::lesc_pairing_random_exchanged );
 
                 std::copy( remote_nonce, remote_nonce + 16, state_data_.lesc_state.remote_nonce_.begin() );
+                state_data_.lesc_state.dhkey_check_verified_ = false;
+            }
+
+            void dhkey_check_verified( bool verified )
+            {
+                state_data_.lesc_state.dhkey_check_verified_ = verified;
+            }
+
+            bool dhkey_check_verified() const
+            {
+                return state_data_.lesc_state.dhkey_check_verified_;
             }
 
             void pairing_requested( const io_capabilities_t& remote_io_caps )
@@ -599,6 +622,7 @@ namespace bluetoe {
                     uint128_t                   remote_nonce_;
                     io_capabilities_t           remote_io_caps_;
                     enum lesc_pairing_algorithm algorithm;
+                    bool                        dhkey_check_verified_;
                 }                                           lesc_state;
             } state_data_;
         };
